@@ -37,6 +37,9 @@ ACTION_ATOMS = [
     ('rd_slot', A('PUSH_SLOT_ATTR', SLAT['advX'], 0, 'ATTR_SET', SLAT['shiftY'])), ('rd_gattr', A('PUSH_GLYPH_ATTR', 0, 5, 0, 'IATTR_SET', SLAT['userDefn'], 0)),
 ]
 POS_LEGAL = [i for i, (n, _) in enumerate(ACTION_ATOMS) if n not in ('insert', 'delete')]
+NA_BASE = len(ACTION_ATOMS)
+# macro atoms used only by explicit extra programs: run-time stack use deeper than the loader's linear depth analysis accounts for
+ACTION_ATOMS += [('setfeat_x%d' % k, push(1) + A('SET_FEAT', 0, 0) * k) for k in (2, 3, 4, 8, 20)]
 TERMS = [('ret0', A('RET_ZERO'))] + [('ret%+d' % k, push(k) + A('POP_RET')) for k in (-2, -1, 0, 1, 2)]
 
 CONSTRAINT_ATOMS = [
@@ -47,6 +50,12 @@ CONSTRAINT_ATOMS = [
 ]
 CTX_BODIES = {'ctx0_0': (0, A('NOP')), 'ctx0_1': (0, push(1)), 'ctx1_2': (1, push(1) + push(2))}
 CTERMS = [('popret', A('POP_RET')), ('rettrue', A('RET_TRUE')), ('retzero', A('RET_ZERO'))]
+NC_BASE = len(CONSTRAINT_ATOMS)
+# explicit extra programs: a CNTXT_ITEM body of k pushes (skipped at run time on every other slot) followed by k-1 binary operators
+DEEP = [(k, slot, opn) for k in (2, 3, 4, 6, 9, 16) for slot in (0, 1) for opn in ('AND', 'ADD', 'OR')]
+for k, slot, opn in DEEP:
+    CTX_BODIES['ctx%d_push%d' % (slot, k)] = (slot, push(1) * k)
+    CONSTRAINT_ATOMS += [('ctx%d_push%d' % (slot, k), None), ('%s_x%d' % (opn.lower(), k - 1), A(opn) * (k - 1))]
 
 
 def catom(name, code):
@@ -80,7 +89,7 @@ def enum_action(tier):
     thorough = tier == 'thorough'
     cfgs = [(2, 0, 2, 'sub'), (3, 1, 5, 'sub'), (2, 0, 1, 'pos')]
     if thorough: cfgs += [(1, 0, 1, 'sub'), (3, 0, 5, 'sub'), (2, 1, 2, 'pos')]
-    na = len(ACTION_ATOMS)
+    na = NA_BASE
     for ci, cfg in enumerate(cfgs):
         alpha = list(range(na)) if cfg[3] == 'sub' else POS_LEGAL
         maxlen_all = 3
@@ -97,6 +106,9 @@ def enum_action(tier):
     for atoms in itertools.product(structural, repeat=5 if thorough else 4):
         if not thorough and len(set(atoms)) < 3: continue
         yield ('action', cfgs[0], atoms, 0)
+    for a in range(NA_BASE, len(ACTION_ATOMS)):
+        for cfg in cfgs[:3]:
+            yield ('action', cfg, (a,), 0); yield ('action', cfg, (0, a), 0)
     if not thorough:
         # quick: the 5-atom programs that use one atom of each kind (advance, glyph change, delete, copy, attach), in every order
         kinds = [('next',), ('glyph_x', 'subs+1'), ('delete',), ('copy-1', 'copy+1'), ('att-1', 'att+1', 'att0')]
@@ -108,7 +120,7 @@ def enum_action(tier):
 
 def enum_constraint(tier):
     thorough = tier == 'thorough'
-    nc = len(CONSTRAINT_ATOMS)
+    nc = NC_BASE
     maxlen = 5 if thorough else 4
     for n in range(0, maxlen + 1):
         for atoms in itertools.product(range(nc), repeat=n):
@@ -116,6 +128,9 @@ def enum_constraint(tier):
             if sum(1 for a in atoms if a >= nc - 3) > 2: continue
             for t in range(len(CTERMS)):
                 yield ('constraint', atoms, t)
+    names = [n for n, _ in CONSTRAINT_ATOMS]
+    for k, slot, opn in DEEP:
+        yield ('constraint', (names.index('ctx%d_push%d' % (slot, k)), names.index('%s_x%d' % (opn.lower(), k - 1))), 0)
 
 
 def font_for_constraint(atoms, term):
